@@ -36,16 +36,20 @@ def handleC19 (j : Json) : R Json := do
     ownActive := fun c => (inits.getD c none)
     ownVersions := fun c => (tables.getD c none) }
   let watch := [0, 1, 2]
-  let m := Spec.C19.specTrace setVersion 3 watch cs0 ops
+  -- the id of a declared list that is EMPTY (observed by content, it looks like the framework default)
+  let emptyId : Option Nat := match j.getObjVal? "empty_id" with
+    | .ok v => (v.getNat?).toOption
+    | .error _ => none
+  let m := Spec.C19.contentTrace emptyId (Spec.C19.specTrace setVersion 3 watch cs0 ops)
   let enc (t : List (List (Option Nat))) : Json := Json.arr (t.map fun r => Json.arr (r.map jOptNat).toArray).toArray
-  let mholds := Spec.C19.holdsTrace cs0 3 watch ops m
+  let mholds := Spec.C19.holdsTraceContent emptyId cs0 3 watch ops m
   if isExc obsJ then
     pure (Json.mkObj [("indomain", toJson true), ("agree", toJson false), ("holds", toJson false),
       ("model_holds", toJson mholds), ("model", enc m)])
   else
     let o ← (← obsJ.getArr?).toList.mapM fun r => do (← r.getArr?).toList.mapM optNat
     pure (Json.mkObj [("indomain", toJson true), ("agree", toJson (m == o)),
-      ("holds", toJson (Spec.C19.holdsTrace cs0 3 watch ops o)), ("model_holds", toJson mholds), ("model", enc m)])
+      ("holds", toJson (Spec.C19.holdsTraceContent emptyId cs0 3 watch ops o)), ("model_holds", toJson mholds), ("model", enc m)])
 
 def decodeElems (j : Json) : R (List Cfi.Equality.Elem) := do
   (← j.getArr?).toList.mapM fun e => do
